@@ -1,8 +1,12 @@
 import json,sys
-pid=sys.argv[1]
+pid=sys.argv[1]; variant=sys.argv[2] if len(sys.argv)>2 else 'r'
 p=json.load(open('/tmp/seedout/prop_%s.json'%pid))
-tag=pid+'r'
-print(f"""You are helping to test a verification tool for false alarms. Your working directory is /tmp/wt_{tag} — a scratch git worktree of the Go library github.com/google/safehtml at a pinned version. You may read and edit files ONLY under /tmp/wt_{tag}, and write your results under /tmp/rfout/{tag}/ (create it). Do NOT read or touch /repo, /verif, /root, or any other /tmp/wt_* , /tmp/seedout/* or /tmp/rfout/* directory.
+tag=pid+variant
+EXTRA=''
+if variant=='t':
+    EXTRA=' Two earlier campaigns already tried plain extract/inline/rename/move, switch-for-if, equivalent standard-library calls, tables of checks, policy structs, hand-written scanners for regular expressions, table builders and cursor objects. Prefer OTHER kinds this time, for example: changing a data representation without changing behaviour (a bool flag for a sentinel value, a small enum type for two bools, a named type with methods for a bare string or map); turning a function into a method or a method into a function; introducing or removing an intermediate variable, a named result or a defer; splitting a long function into phases that pass a small struct; converting between value and pointer receivers where nothing observes the difference; replacing a package-level variable by a function returning the same value (or by a constant); merging two similar functions into one with a parameter, or splitting one such function into two; changing error construction (fmt.Errorf vs errors.New with the same text) or wrapping an error without changing its message; generics or small interfaces where they remove duplication; reordering struct fields or declarations; using a keyed composite literal for a positional one.'
+
+print(f'''You are helping to test a verification tool for false alarms. Your working directory is /tmp/wt_{tag} — a scratch git worktree of the Go library github.com/google/safehtml at a pinned version. You may read and edit files ONLY under /tmp/wt_{tag}, and write your results under /tmp/rfout/{tag}/ (create it). Do NOT read or touch /repo, /verif, /root, or any other /tmp/wt_* , /tmp/seedout/* or /tmp/rfout/* directory.
 
 The property below is a JSON record; 'statement' is a property of the library that currently HOLDS, 'anchors' point at the code that makes it hold:
 
@@ -14,10 +18,10 @@ TASK: produce FOUR different, realistic, BEHAVIOUR-PRESERVING refactorings of th
  - restructure control flow (early return vs if/else, switch vs if chain, loop form, De Morgan on a condition, reorder independent checks);
  - replace a standard-library call by an equivalent one (strings.ContainsRune vs strings.IndexByte >= 0, strings.Builder vs bytes.Buffer, fmt.Sprintf vs concatenation, a regexp written differently but matching exactly the same language, a map replaced by a switch or a lookup table with the same entries);
  - wrap a check in a small predicate function; split or merge regular expressions without changing what is accepted.
-Each patch should touch roughly 10-60 lines. Be careful that each one REALLY preserves behaviour for all inputs (including error values/messages where the property or tests care) — think about edge cases; if in doubt choose a safer refactoring. Do not edit or delete existing *_test.go files.
+'''+EXTRA+''' Each patch should touch roughly 10-60 lines. Be careful that each one REALLY preserves behaviour for all inputs (including error values/messages where the property or tests care) — think about edge cases; if in doubt choose a safer refactoring. Do not edit or delete existing *_test.go files.
 
 PROCEDURE for each refactoring i = 1..4: start from the pristine tree (`git checkout -- . && git clean -fdq`), make the edit, run build and tests, save it with `git diff > /tmp/rfout/{tag}/refactor_i.diff` (if you add new files, `git add -N` them first so they appear in the diff), then restore the pristine tree. Do NOT use git stash (it is shared between worktrees and other agents are working in parallel).
 
 DELIVERABLES in /tmp/rfout/{tag}/ : refactor_1.diff … refactor_4.diff and meta.json = {{"property": "{pid}", "refactors": [{{"file": "refactor_1.diff", "kind": "<kind>", "summary": "<what it does and why behaviour is unchanged>", "suite_passes": true}}, …]}}.
 
-ENVIRONMENT: there is no network. Before any go command run: export GOFLAGS=-mod=mod GOPROXY=off GOSUMDB=off GOTOOLCHAIN=local ; unset GOWORK. When you finish, leave the worktree pristine. Reply with a short summary of the four refactorings.""")
+ENVIRONMENT: there is no network. Before any go command run: export GOFLAGS=-mod=mod GOPROXY=off GOSUMDB=off GOTOOLCHAIN=local ; unset GOWORK. When you finish, leave the worktree pristine. Reply with a short summary of the four refactorings.''')
